@@ -1427,6 +1427,8 @@ def scenario_from_module(mod, rep):
     sc.dialect = rep.get("dialect")
     dlo = getattr(mod.__dict__.get("Dl"), "omit_none", None)
     sc.dialect_omit = dlo if isinstance(dlo, bool) else None
+    dld = getattr(mod.__dict__.get("Dl"), "omit_default", None)
+    sc.dialect_omit_default = dld if isinstance(dld, bool) else None
     names = sorted([n for n in mod.__dict__ if n.startswith("K") and n[1:].isdigit()], key=lambda s: int(s[1:]))
 
     def ty_of(tp):
@@ -1468,9 +1470,12 @@ def scenario_from_module(mod, rep):
         on = getattr(cfg, "omit_none", None) if cfg else None
         if isinstance(on, bool):
             cobj.extra["omit_none"] = str(on)
-        for oname in ("sort_keys", "forbid_extra_keys", "allow_deserialization_not_by_alias"):
+        for oname in ("sort_keys", "forbid_extra_keys", "allow_deserialization_not_by_alias", "omit_default"):
             if cfg is not None and isinstance(cfg.__dict__.get(oname), bool):
                 cobj.extra[oname] = str(cfg.__dict__[oname])
+        for f in dc.fields(k):
+            if f.name not in inherited and f.default is not dc.MISSING and (f.default is None or type(f.default) in (int, str)):
+                cobj.defaults[f.name] = L.canon(f.default)
         sc.classes.append(cobj)
     sc.roots = [ty_of(t) for t in mod.ROOTS]
     return sc
